@@ -90,7 +90,9 @@ def check_ownership(run, db):
     allowed_true = {'<ctor>', 'find_unused'}
     allowed_false = {'clear'}
     for f, how in writers_true:
-        if f.short not in allowed_true:
+        # taking a stack (flag false -> true by compare-exchange, whose expected value R-TS14.cas decides) is the list's own business,
+        # whichever of its member functions contains the loop; creation sets the flag in the node's constructor
+        if f.short not in allowed_true and not (how.startswith('compare_exchange') and cls_template(f.cls or '') == 'detail::temporary_stack_list'):
             probs.append('%s sets in_use_ (%s)' % (strip_ns(f.name), how))
     for f, how in writers_false:
         if f.short not in allowed_false:
@@ -355,7 +357,14 @@ def check_cas(run, db):
             if s.end != 'return' or s.ret in (None, 'null'):
                 continue
             if not any('compare_exchange' in c and tk for c, tk in s.conds):
-                probs.append('returns %s on a path where no exchange succeeded' % s.ret[:50])
+                # a freshly created stack (the result of a function that constructs one, or a new-expression) is not taken from the list
+                rt = sym.strip_casts(s.ret_term) if s.ret_term is not None else {}
+                fresh = isinstance(rt, dict) and rt.get('k') == 'new'
+                if isinstance(rt, dict) and rt.get('k') == 'call':
+                    g = db.fns.get(rt.get('key'))
+                    fresh = g is not None and any((top_term(e2) or {}).get('k') == 'new' for e2 in g.events())
+                if not fresh:
+                    probs.append('returns %s on a path where no exchange succeeded' % s.ret[:50])
         _emit(run, 'R-TS14.cas', f, db, probs, 'in_use_: false -> true, expected value fresh at every exchange; node returned only on success',
               {'function': strip_ns(f.name), 'role': 'adopt only an unused stack'})
     return n
